@@ -54,7 +54,7 @@ var (
 
 	c15altered   = core.RegCounter("c15.altered_tuples_evaluated")
 	c15kat       = core.RegCounter("c15.rfc9381_known_answer_runs")
-	c15panicSkip = core.RegCounter("c15.cases_skipped_because_the_library_panicked")
+	c15panicSkip = core.RegCounter("c15.verifier_panics")
 	c15companion = core.RegCounter("c15.other_provers_tuple_read_into_the_receive_buffer_first")
 	c15rxReuse   = core.RegCounter("c15.deliveries_through_one_reused_receive_buffer")
 	c15bigAlpha  = core.RegCounter("c15.runs_with_input_strings_around_2^16_bytes")
@@ -71,6 +71,7 @@ var c15faultNames = []string{
 	"pk-non-canonical", "pk-non-canonical-with-matching-forgery",
 	"gamma-non-canonical",
 	"other-key", "proof-of-other-key", "other-alpha", "proof-of-other-alpha",
+	"fields-zero-filled", "fields-ff-filled",
 }
 
 var c15faultCtr = func() map[string]int {
@@ -278,8 +279,9 @@ func (c *c15Run) deliver(label string, v10 bool, pk, pi, alpha []byte) (accepted
 		r.Count(c15opVerify)
 	}
 	if pan {
+		// "fails to verify" means (false, nil): the verifiers document no panic for any (key, proof, input)
 		r.Count(c15panicSkip)
-		r.Ev("%s: %s panicked (%.60s); case skipped, panics on bytes belong to C19", label, c15fmtName(v10), pmsg)
+		r.Fail("rejection", "verifier-panicked", "%s: %s(pk=%x, pi=%x, alpha of %d bytes) panicked instead of answering: %s", label, c15fmtName(v10), pk, pi, len(alpha), pmsg)
 		return false, false
 	}
 	c.keep(beta)
@@ -298,6 +300,7 @@ func (c *c15Run) deliver(label string, v10 bool, pk, pi, alpha []byte) (accepted
 	r.Count(c15opP2H)
 	if hpan {
 		r.Count(c15panicSkip)
+		r.Fail("rejection", "proof-to-hash-panicked", "%s: ProofToHash(%x) panicked instead of returning an error", label, pi)
 	} else {
 		c.keep(hb)
 		mhb, mwhy := model.ECVRFProofToHash(pi)
@@ -598,7 +601,24 @@ func (c *c15Run) alter(base c15Proof) {
 		alpha = append(alpha, t.Bytes(core.SW, 1+t.W(16))...)
 		name = "extend-alpha"
 	}
-	switch t.W(13) {
+	switch t.W(14) {
+	case 13: // a torn or lost write: whole fields of the proof read back as zeros (or as erased flash, 0xff)
+		mask := 1 + t.W(7) // any non-empty subset of {Gamma, c, s}
+		fill, nm := byte(0), "fields-zero-filled"
+		if t.W(4) == 3 {
+			fill, nm = 0xff, "fields-ff-filled"
+		}
+		for f, rg := range [][2]int{{0, 32}, {32, 48}, {48, 80}} {
+			if mask&(1<<uint(f)) != 0 {
+				for j := rg[0]; j < rg[1]; j++ {
+					pi[j] = fill
+				}
+			}
+		}
+		if bytes.Equal(pi, base.pi) {
+			return
+		}
+		name = nm
 	case 0, 1: // one bit of the proof (Gamma 256, c 128, s 256 bits)
 		bit := t.W(640)
 		flip(pi, bit)
